@@ -8,6 +8,10 @@ T  real `Analysis` (androguard, in-process) vs the Lean model `AgVerif.Cfg` (dri
      leaders, adjacent / overlapping ranges, handlers inside loops, shared handler lists);
    * every method of the shipped DEX/APK files; the model is fed with the real disassembly's
      (length, opcode, ref_off, payload kind, targets) stream and the parsed try items.
+   * histories on one EncodedMethod: analysed, then its instruction list replaced through the public
+     EncodedMethod.set_instructions() (nops prepended, another method's code, the same code with other
+     payload targets, back to the original; direct get_ins_off / off_to_pos calls in between), then a
+     FRESH MethodAnalysis on the same EncodedMethod; model and oracle are computed from the NEW list.
 S  harness/cfg_oracle.py on the real results (specification decoder + interval intersection).
 
 One request line per method:  `<cmd> <stream> <tries> <handlers>` (see lean/Driver/C10.lean).
@@ -23,6 +27,16 @@ from harness import dexasm as A
 from harness.fw import REPO, VERIF, Check, Driver, sha
 
 THROWABLE = "Ljava/lang/Throwable;"
+_DEX = "androguard/core/dex/__init__.py"
+_ANA = "androguard/core/analysis/analysis.py"
+# every hand-modelled function (the literal list is repeated in harness/props/c10.py … c40.py for tools/mkpins.py)
+PINS = [(_DEX, "determineNext"), (_DEX, "determineException"), (_DEX, "DCode.get_ins_off"),
+        (_DEX, "DCode.off_to_pos"), (_DEX, "DCode.set_instructions"), (_DEX, "DCode.get_instructions"),
+        (_DEX, "EncodedMethod.get_instructions_idx"), (_DEX, "EncodedMethod.set_instructions"),
+        (_ANA, "MethodAnalysis._create_basic_block"), (_ANA, "DEXBasicBlock.push"),
+        (_ANA, "DEXBasicBlock.set_childs"), (_ANA, "DEXBasicBlock.set_fathers"),
+        (_ANA, "BasicBlocks.get_basic_block"), (_ANA, "Exceptions.get_exception"), (_ANA, "Exceptions.add"),
+        (_ANA, "ExceptionAnalysis.__init__")]
 CMD = {"C10": "c10", "C11": "c11", "C12": "c12", "C40": "c40"}
 GEN_CLASS = "LGen;"
 EXT_CLASS = "Lext/E;"
@@ -83,8 +97,10 @@ def xref_flag(d, m, ins, op, fkeys):
     return False
 
 
-def method_request(d, m, fkeys):
-    """(args string for the driver, instruction objects) from the real disassembly of `m`"""
+def method_request(d, m, fkeys, xrefs=True):
+    """(args string for the driver, instruction objects) from the real disassembly of `m`
+    (its current instruction list); xrefs=False: no cross-reference flags (history stream: create_xref
+    is not re-run after set_instructions)"""
     from androguard.core import dex
     code = m.get_code()
     insns = list(m.get_instructions())
@@ -101,7 +117,7 @@ def method_request(d, m, fkeys):
             kind = 0
         g = getattr(i, "get_ref_off", None)
         ref = g() if g is not None and kind == 0 else 0
-        x = 1 if kind == 0 and xref_flag(d, m, i, op, fkeys) else 0
+        x = 1 if xrefs and kind == 0 and xref_flag(d, m, i, op, fkeys) else 0
         s = f"{i.get_length()}:{op}:{ref}:{kind}:{x}"
         if kind in (1, 2):
             tg = i.get_targets()
@@ -140,8 +156,9 @@ def parsed_tries(d, m):
     return out
 
 
-def real_view(dx, m, insns, xidx):
-    ma = dx.get_method(m)
+def real_view(dx, m, insns, xidx, ma=None):
+    if ma is None:
+        ma = dx.get_method(m)
     off_of = {}
     o = 0
     for i in insns:
@@ -404,6 +421,48 @@ def build_dex(specs, shared_handlers=False):
     return data, b
 
 
+def has_payload_user(sp):
+    return any(isinstance(i, list) and i[0] in ("packed-switch", "sparse-switch", "fill-array-data") for i in sp["items"])
+
+
+def retarget(sp, rng):
+    """the same method with other payload targets (same layout): targets rotated / reversed / collapsed"""
+    out = json.loads(json.dumps(sp))
+    for it in out["items"]:
+        if isinstance(it, list) and it[0] in ("packed-switch-payload", "sparse-switch-payload") and len(it[2]) >= 1:
+            t = it[2]
+            how = rng.randrange(3)
+            it[2] = (t[1:] + t[:1]) if how == 0 and len(set(t)) > 1 else [t[-1]] * len(t) if how == 1 else list(reversed(t))
+            if it[2] == t:
+                it[2] = [t[0]] * (len(t) - 1) + [0]          # some case goes back to the switch itself
+    return out
+
+
+def gen_history(rng):
+    """three method bodies (A, B, A with other payload targets) and a sequence of edits of one of them:
+    step = [source body 0..2, number of nops prepended, direct lookups before the edit (bool)]"""
+    def one():
+        while True:
+            try:
+                sp = gen_spec(rng)
+                if has_payload_user(sp):
+                    A.assemble([_item(i, symbolic=False) for i in sp["items"]])
+                    return sp
+            except ValueError:
+                continue
+    a, b = one(), one()
+    if rng.random() < 0.75:
+        a["tries"], b["tries"] = [], []
+    specs = [a, b, retarget(a, rng)]
+    target = rng.choice((0, 0, 1, 2))
+    steps = []
+    for _ in range(rng.choice((1, 2, 2, 3, 4))):
+        steps.append([rng.randrange(3), rng.choice((0, 0, 2, 2, 4, 1)), rng.random() < 0.3])
+    if rng.random() < 0.5:
+        steps.append([target, 0, False])                       # and back to the original body
+    return {"specs": specs, "target": target, "steps": steps, "shared_handlers": rng.random() < 0.5}
+
+
 def spec_tries(sp):
     return [(t[0], t[1], [(tok(h[0]), h[1]) for h in t[2]] + ([(tok(THROWABLE), t[3])] if t[3] is not None else []))
             for t in sp["tries"]]
@@ -450,10 +509,10 @@ class Run:
         self.samples = []
         self.judge = O.JUDGES[prop]
 
-    def one_method(self, d, dx, m, xidx, fkeys, code_bytes, tries, case):
+    def one_method(self, d, dx, m, xidx, fkeys, code_bytes, tries, case, ma=None, xrefs=True):
         ck = self.ck
-        args, insns = method_request(d, m, fkeys)
-        view = real_view(dx, m, insns, xidx)
+        args, insns = method_request(d, m, fkeys, xrefs)
+        view = real_view(dx, m, insns, xidx, ma)
         self.reqs.append(f"{self.cmd} {args}")
         self.real.append(canon(view, self.prop))
         self.post.append(d)
@@ -489,6 +548,30 @@ class Run:
                             {"kind": "gen", "spec": sp, "shared_handlers": shared})
             self.dist["gen_methods"] += 1
 
+    def run_history(self, h, upto=None):
+        """analysis -> set_instructions -> fresh MethodAnalysis … on ONE EncodedMethod"""
+        from androguard.core import dex
+        from androguard.core.analysis import analysis
+        data, b = build_dex(h["specs"], h["shared_handlers"])
+        d, dx = load_dex(data)                                   # first analysis of every method
+        fkeys = field_keys(d)
+        by_name = {m.get_name(): m for m in d.get_encoded_methods()}
+        m = by_name[f"m{h['target']}"]
+        bc = m.get_code().get_bc()
+        tries = spec_tries(h["specs"][h["target"]])              # the code item keeps its own try table
+        for k, (src, nops, poke) in enumerate(h["steps"]):
+            if upto is not None and k > upto:
+                break
+            if poke:
+                bc.get_ins_off(0), bc.off_to_pos(0), bc.get_ins_off(2)
+            code = b"\x00\x00" * nops + b.code_bytes[(GEN_CLASS, f"m{src}", "V", ())]
+            new = list(dex.LinearSweepAlgorithm.get_instructions(bc.CM, len(code) // 2, code, 0))
+            m.set_instructions(new)                              # the public way to edit a method body
+            ma = analysis.MethodAnalysis(d, m)                   # analysed again, same EncodedMethod
+            self.one_method(d, dx, m, {}, fkeys, code, tries, dict(h, kind="hist", upto=k), ma=ma, xrefs=False)
+            self.dist["history_steps"] = self.dist.get("history_steps", 0) + 1
+        self.dist["histories"] = self.dist.get("histories", 0) + 1
+
     def run_file(self, name, which, path, only=None):
         for k, data in enumerate(read_dexes(path, which)):
             try:
@@ -521,6 +604,8 @@ class Run:
 def replay_case(run: Run, case):
     if case.get("kind") == "gen":
         run.run_specs([case["spec"]], case.get("shared_handlers", False))
+    elif case.get("kind") == "hist":
+        run.run_history(case, upto=case.get("upto"))
     elif case.get("kind") == "file":
         base = os.path.join(REPO, "tests", "data", "APK", case["file"])
         run.run_file(case["file"], 0 if case["file"].endswith(".dex") else None, base, only=case["method"])
@@ -533,9 +618,11 @@ def corpus_cases(prop):
     return out
 
 
-def run(ck: Check, prop: str):
+def run(ck: Check, prop: str, pins=None):
     from harness.fw import quiet_androguard
     quiet_androguard()
+    ck.pins_changed(pins or PINS)       # a changed modelled function is no verdict: it only deepens the search
+    big = ck.escalated and ck.quick
     ck.run_gen("cfgops")
     ck.prove(exes=["drv_C10"])
     drv = Driver("drv_C10")
@@ -544,12 +631,18 @@ def run(ck: Check, prop: str):
                " view) and judged by the specification oracle; generated methods (1-8 labelled segments, random "
                "terminators, shared/misaligned/missing payloads, 0-3 try ranges cut at random instruction boundaries) "
                "and all methods with code of the shipped DEX files (quick: *.dex + 2 APKs; thorough: every APK). "
+               "histories: one EncodedMethod analysed, edited 1-5 times through set_instructions (nops prepended, "
+               "another body, other payload targets, back to the original) and analysed afresh after every edit. "
                "distinct = distinct request line of a method with more than one block or a try table")
     # corpus first
     for name, c in corpus_cases(prop):
         replay_case(r, c["case"] if "case" in c else c)
     n = r.flush(drv)
-    ngen = 2500 if ck.quick else 60000
+    ngen = (10000 if big else 2500) if ck.quick else 60000
+    nhist = (3000 if big else 300) if ck.quick else 6000
+    for _ in range(nhist):
+        r.run_history(gen_history(ck.rng))
+    n += r.flush(drv)
     per = 50
     for _ in range(ngen // per):
         specs = []
